@@ -6,7 +6,7 @@ import ProductMD.Model.HashMD
 
 Mirrors `productmd/treeinfo.py`: `compute_checksum` (chunked read into a streaming hash), `Checksums.add`
 (absolute-path refusal, `os.path.normpath`, digest computed when no value is given), `Checksums.serialize` /
-`deserialize` (`type:value`; bare legacy digests typed by length) and `productmd/images.py` `Image.add_checksum`.
+`deserialize` (`type:value`; bare legacy digests: hex digits only, typed by length) and `productmd/images.py` `Image.add_checksum`.
 
 The hash function is a parameter (`init`, `upd`, `dig`): either abstract, or a block-buffered hash of
 `Model/HashMD.lean` (`computeMD`; md5/sha1/sha2 by name: `computeByName`); the `[checksums]` section is an association list
@@ -174,9 +174,18 @@ def serialize (t : Table) : Except Err (List (Str × Str)) :=
   | .error e => .error e
   | .ok () => .ok (t.map fun e => (e.1, e.2.1 ++ ':' :: e.2.2))
 
-/-- bare digest typed by its length -/
-def typedBare (v : Str) : Option (Str × Str) :=
+/-- `if not all(c in string.hexdigits for c in value): raise ValueError` at the head of the bare branch (F36 fix;
+`Gen.legacyHexGuard = false`: the code without it) -/
+def bareRefused (v : Str) : Bool :=
+  Gen.legacyHexGuard && !(v.all fun c => Gen.legacyHexDigits.contains c)
+
+/-- the `len(value) == n` chain alone -/
+def chainBare (v : Str) : Option (Str × Str) :=
   (Gen.legacyDigestTypes.find? (fun p => p.1 == v.length)).map (fun p => (p.2, v))
+
+/-- bare digest: made of the guard's digits only, then typed by its length -/
+def typedBare (v : Str) : Option (Str × Str) :=
+  if bareRefused v then none else chainBare v
 
 /-- `checksum_type, checksum = value.split(":")` -/
 def splitTyped (v : Str) : Except Err (Str × Str) :=
@@ -208,7 +217,8 @@ def fixPath (legacy : Bool) (p : Str) : Str :=
 final `else: raise` (`Gen.legacyElseRaises = false`, the code before the F3 fix). -/
 def entryOf (prev : Option (Str × Str)) (v : Str) : Except Err (Str × Str) :=
   if v.contains ':' then splitTyped v
-  else match typedBare v with
+  else if bareRefused v then .error .valueError                   -- the guard raises whatever the end of the chain does
+  else match chainBare v with
     | some tv => .ok tv
     | none =>
       if Gen.legacyElseRaises then .error .valueError
